@@ -42,6 +42,21 @@ func registerModels(e *Engine) {
 			return Val{Sort: "Tuple"}
 		}
 	}
+	// encoding/json.Unmarshal(data, v): total; on return *v holds an arbitrary well-typed value, nothing else changes (T3).
+	e.models["encoding/json.Unmarshal"] = func(a *Act, st *State, args []Val, resT types.Type, pos token.Pos) Val {
+		res := a.freshVal("jsonerr", resT)
+		tgt := args[1]
+		if tgt.Under != nil && tgt.Under.T != nil && tgt.Under.P == nil {
+			if pt, ok := tgt.Under.T.Underlying().(*types.Pointer); ok {
+				a.havocStruct(st, tgt.Under.S, pt.Elem())
+				a.vc.noteAssumed("encoding/json.Unmarshal: total, writes an arbitrary well-typed value into its target and nothing else")
+				return res
+			}
+		}
+		a.vc.noteAssumed("encoding/json.Unmarshal with untracked target: havocs the heap")
+		a.havocAllHeaps(st)
+		return res
+	}
 	e.models["sync.RWMutex.Lock"] = lock("2", true)
 	e.models["sync.RWMutex.Unlock"] = lock("2", false)
 	e.models["sync.RWMutex.RLock"] = lock("1", true)
